@@ -19,9 +19,9 @@ TRUSTED = [
     "tools/rs2v.py + tools/gen/gen_poly.py: every dispatch threshold of polynomial.rs / zerofier_tree.rs is re-read from the "
     "source on every run (coq/gen/PolyGen.v); the model's dispatch and the theorems use the regenerated constants",
     "extraction: ExtrOcamlBasic + ExtrOcamlZBigInt (positive, N, Z -> zarith; Z.pow, Z.log2, Z.testbit mapped to zarith as in "
-    "ExtractC07.v; additionally lib/Word.v wrap / wshr / wshl mapped to zarith Z.extract / shift_right / shift_left, "
-    "coq/extract/ExtractC08.v - 2.5x faster field operations), OCaml 4.13.1, zarith 1.12; the oracle driver splits the case "
-    "file over worker processes (copies of itself)",
+    "ExtractC07.v; additionally lib/Word.v wrap / wshr / wshl mapped to zarith Z.extract / shift_right / shift_left and Coq's "
+    "quadratic List.rev mapped to OCaml's List.rev, coq/extract/ExtractC08.v - field operations 2.5x faster, poly_degree "
+    "linear), OCaml 4.13.1, zarith 1.12; the oracle driver splits the case file over worker processes (copies of itself)",
     "correspondence harness (harness/src/bin/c08.rs), oracle driver with the zarith specs (ocaml/c08.ml: product of linear "
     "factors, Horner evaluation, interpolation = degree bound + passes through the points + Lagrange formula for small n, "
     "naive inverse DFT + long division + Horner for the coset routines), case generator (tools/props/c08.py)",
